@@ -217,6 +217,9 @@ def body_C07(ctx):
                 kprogs.append(k2.gen_scaffold(rng, "al%d" % len(kprogs), kind, name=name, max_branches=4, max_depth=3, fail_rate=(1, 8)))
     run_k2(ctx, kprogs)
     k2async.body(ctx, n=ctx.n(32, 320))
+    # the task-spawning kinds on programs in which nothing fails: a third of them is executed twice, the second time on a new tokio
+    # runtime, and must return what it returned the first time (and what the plain kinds return: the reference semantics)
+    k2async.body(ctx, kinds=("a1t0s1", "a1t1s1"), n=ctx.n(18, 180), fail_rate=(0, 1))
     for name in sorted(set(n for ns in k2.NAMES.values() for n in ns)):
         ctx.dist["k2:" + name] += 0
 
@@ -226,6 +229,11 @@ def body_C20(ctx):
     n = ctx.n(400, 4000)
     items = random_items(ctx, n)
     items += [(rng.pick(G.KINDS), s, "malformed") for s in G.MALFORMED]
+    # large indices in every name position next to small programs that use the small indices: a cache or packing of names
+    # that is exact only below some bound shows as history dependence (12/24/130 branches, 104 steps, 104 and 300 actions)
+    big = list(G.fam_large()) + ["a " + " ".join("|> { b%d }" % i for i in range(300)),
+                                 "x, { b } |> g", "{ a0 }, { a1 } ~|> { c1 }, y |> { d2 }"]
+    items += [(k, s, "large") for s in big for k in ("a0t0s0", "a1t1s1")]
     cases = mk_cases(items)
     reals, _ = ctx.k1(cases)
     # implementation-side oracle: repeated / shuffled / interleaved / concurrent expansion
@@ -243,7 +251,7 @@ def body_C20(ctx):
             c = by_id[cid]
             ctx.out.violation({"macro_kind": c[1], "source": c[2],
                                "what": "the same invocation expanded to different outputs within one process",
-                               "history": "first; reversed order; interleaved with two other inputs (2 rounds); 8 threads concurrently",
+                               "history": "first; reversed order; each in a brand-new thread; interleaved with two other inputs (2 rounds); 8 threads concurrently",
                                "replay_cmd": "./check C20 --replay <this file>"}, found_input=True,
                               signature="impure:" + hashlib.sha1(c[2].encode()).hexdigest()[:8])
     ctx.evals += total
